@@ -219,7 +219,8 @@ def gen_C13(seed, tier):
                 c.sup_abs(s, i)
                 c.sup_at(s, i)
         # invalid windows are refused
-        for (a, b) in [(1, 1), (2, 1), (0, n + 1), (n, n), (n, n + 1), (1, 0), (W64 - 1, 0), (0, W64 - 1)]:
+        for (a, b) in [(1, 1), (2, 1), (0, n + 1), (n, n), (n, n + 1), (1, 0), (W64 - 1, 0), (0, W64 - 1), (n + 1, n + 2),
+                       (n + 1, n + 3), (n + 2, n + 4), (n + 1, n + 1), (W64 - 2, W64 - 1), (n + 1, W64 - 1), (2 ** 63, 2 ** 63 + 1)]:
             c.sup_new(900, 0, a, b)
         c.sup_whole(901, 0)
         c.show(901)
@@ -434,6 +435,14 @@ def gen_C03(seed, tier):
             else:
                 c.spl_idiv(8, rand_scalar(rng))
             c.show(8)
+        # the same object as both operands (aliasing): a + a, a - a, a * a, a += a, a -= a
+        c.spl_add(70, 1, 1); c.show(70)
+        c.spl_sub(71, 1, 1); c.show(71)
+        if 2 * o <= 8:
+            c.spl_mul(720 + 2 * o, 1, 1); c.show(720 + 2 * o)
+        c.spl_copy(73, 1); c.spl_iadd(73, 73); c.show(73)
+        c.spl_copy(74, 1); c.spl_isub(74, 74); c.show(74)
+        c.spl_lincomb(75, [Fr(2), Fr(-3)], [1, 1]); c.show(75)
         # linearCombination over 1..6 splines with differing windows
         k = rng.randint(1, 6)
         ss = []
@@ -476,6 +485,20 @@ def gen_C04(seed, tier):
                 for k in range(0, maxpos + 1):
                     d = 300 + k
                     c.apply(d, E('Pos', k), src); c.show(d)
+            # the same operators applied alternately to splines on a DIFFERENT grid of the same size (same interval
+            # indices, different midpoints): nothing may be carried over from one application to the next
+            pts2 = [p + Fr(2 * i + 1, 3) for i, p in enumerate(pts)]
+            c.grid_new(1, pts2)
+            mk_spline(c, rng, 30, 0, n, o, w=(0, n), supslot=1030)
+            mk_spline(c, rng, 31, 1, n, o, w=(n - 2, n), supslot=1031)
+            mk_spline(c, rng, 32, 1, n, o, w=(0, n), supslot=1032)
+            for k in range(0, maxpos + 1):
+                d = 300 + k
+                c.apply(d, E('Pos', k), 30); c.apply(d, E('Pos', k), 31); c.show(d)
+                c.apply(d, E('Pos', k), 32); c.show(d); c.apply(d, E('Pos', k), 30); c.show(d)
+            for k in range(0, o + 2):
+                d = 200 + k
+                c.apply(d, E('Der', k), 30); c.apply(d, E('Der', k), 31); c.show(d)
             # the per-interval transform directly, on every interval of the grid
             coefs = [rand_coef(rng) for _ in range(o + 1)]
             for k in range(n - 1):
@@ -753,6 +776,22 @@ def gen_C08(seed, tier):
                     c.spl_lincomb(900 + oa, [Fr(1), Fr(2)], [a, b])
                     c.spl_lincomb(900 + oa, [Fr(1), Fr(2)], [a, b2])
                     c.spl_lincomb(900 + oa, [Fr(1)], [a, b])          # count mismatch comes first
+            # an existing object re-assigned ACROSS grids (move assignment, copy assignment, cross-order assignment):
+            # afterwards it lives on the source's grid - refused with its old neighbours, accepted with its new ones
+            wn = (0, min(3, n2))
+            c.sup_new(1970, 0, 0, 3); c.spl_new(970, 1, 1970, rand_coefs(rng, 1, 2))
+            c.sup_new(1971, 1, wn[0], wn[1]); c.spl_new(971, 1, 1971, rand_coefs(rng, 1, nint(wn)))
+            c.sup_new(1972, 0, 1, 4); c.spl_new(972, 1, 1972, rand_coefs(rng, 1, 2))
+            c.sup_new(1973, 1, wn[0], wn[1]); c.spl_new(973, 1, 1973, rand_coefs(rng, 1, nint(wn)))
+            c.sup_new(1974, 1, wn[0], wn[1]); c.spl_new(974, 0, 1974, rand_coefs(rng, 0, nint(wn)))
+            c.spl_copy(975, 970); c.spl_move_assign(975, 971); c.show(975)          # 975 now lives on grid 1
+            c.spl_add(980, 975, 972); c.spl_add(980, 975, 973); c.show(980)
+            c.spl_mul(981, 972, 975); c.bilin(E('Id'), E('Id'), 975, 972); c.bilin(E('Id'), E('Id'), 975, 973)
+            c.spl_copy(976, 970); c.spl_assign_up(976, 974); c.show(976)             # order 1 <- order 0 on grid 1
+            c.spl_add(980, 976, 972); c.spl_add(980, 976, 973); c.spl_iadd(976, 972); c.show(976)
+            c.spl_copy(977, 970); c.spl_copy(977, 973); c.spl_sub(980, 977, 972); c.spl_sub(980, 977, 971)
+            c.sup_copy(1978, 1970); c.sup_move_assign(1978, 1971); c.show(1978)
+            c.sup_union(1979, 1978, 1972); c.sup_union(1979, 1978, 1973); c.sup_eq(1978, 1973)
             # generator with a supplied grid
             c.gen2(950, 1, list(pts), 1)
             c.gen2(960, 1, list(pts), 2)
@@ -1048,6 +1087,9 @@ def gen_history(rng, cid, length, show_every=True):
         elif r < 0.92:
             # failing constructions interleaved
             c.sup_new(fresh(), 0, 3, 1)
+            bad = rng.choice([(n + 1, n + 3), (n + 2, n + 3), (n, n + 1), (n + 5, n + 9), (W64 - 2, W64 - 1), (2, n + 1), (n + 1, n + 1)])
+            sb = fresh()
+            c.sup_new(sb, 0, bad[0], bad[1]); c.show(sb)
             ss = sups[-1] if sups else None
             if ss:
                 c.spl_new(fresh(), 1, ss, rand_coefs(rng, 1, 7))
